@@ -7,7 +7,7 @@ EXPLANATION = ("Gate dominance and polarity by path-sensitive abstract interpret
                "haystack) and of the haystack/cursor pair handed down by next_match/peek_n (offset-kind consistency after "
                "set_offset), lookahead length never flows into the match end, every gate-satisfied candidate reaches the "
                "selection. The language of the lookahead automaton itself is C02.")
-RULES = {"C04.a", "C04.b", "C04.c", "C04.d", "C04.e", "C04.f"}
+RULES = {"C04.a", "C04.b", "C04.c", "C04.d", "C04.e", "C04.f", "C01.i"}
 
 
 def check(ctx):
